@@ -27,16 +27,15 @@ TStep == \/ Is("deepcopy") /\ Ev.i \in Trees /\ DeepCopy(Ev.i)
          \/ Is("remove_symbol") /\ Ev.i \in Trees /\ RemoveSymbol(Ev.i, Ev.c, Ev.s)
          \/ Is("add_equation") /\ Ev.i \in Trees /\ AddEquation(Ev.i, Ev.c, Ev.e)
          \/ Is("remove_equation") /\ Ev.i \in Trees /\ RemoveEquation(Ev.i, Ev.c, Ev.e)
+         \/ Is("add_initial_equation") /\ Ev.i \in Trees /\ AddInitialEquation(Ev.i, Ev.c, Ev.e)
+         \/ Is("remove_initial_equation") /\ Ev.i \in Trees /\ RemoveInitialEquation(Ev.i, Ev.c, Ev.e)
          \/ Is("add_class") /\ Ev.i \in Trees /\ AddClass(Ev.i, Ev.c)
          \/ Is("remove_class") /\ Ev.i \in Trees /\ RemoveClass(Ev.i, Ev.c)
 
 TNextTrace == /\ tid <= Len(Batch) /\ l = Len(Batch[tid]) + 1
               /\ tid' = tid + 1 /\ l' = 1
               /\ val' = <<PristineVal>>
-              /\ obj' = << TreeObj([c \in Classes |-> 1 + (CHOOSE j \in 1..3 : Order[j] = c)], 1),
-                           ClassObj("Leaf", OwnSyms("Leaf"), OwnEqs("Leaf"), 1, 2),
-                           ClassObj("Mid", OwnSyms("Mid"), OwnEqs("Mid"), 1, 3),
-                           ClassObj("Top", OwnSyms("Top"), OwnEqs("Top"), 1, 4) >>
+              /\ obj' = InitObjs
               /\ roots' = <<1>> /\ ops' = 0 /\ hist' = <<>> /\ last' = [act |-> "init"]
 
 TNext == TStep \/ TNextTrace
